@@ -10,8 +10,31 @@ component types that have a destructor (`compNeedsDrop`): a value that leaves st
   `history_then_drop`: the model's `drop` operation (outside `Op.Valid`: it ends the history) never fails, leaves nothing
   stored, and logs `(type, serial)` of every stored cell whose component type has a destructor — each exactly once in
   the whole-history ledger.  No invariant of the world is needed for the cells of columns that have a component index
-  (position by position); in a world satisfying `WInv` every column has one, and every value `World::get` can read is
-  such a cell.
+  (position by position); every value `World::get` can read is such a cell (`readable_position`).
+* **(ii) the structural effects, one delivery** — from a world satisfying `WInv` (for a reachable world:
+  `reachable_effects_no_leak`, only `Reach` and `Small` assumed), on normal return of the built-in effect:
+  `insert_overwrite_old_destroyed` (the value an `Insert` overwrites), `remove_effect_old_destroyed` (the value a
+  `Remove` removes), `despawn_effect_all_destroyed` (every value of the despawned entity): if the component type has a
+  destructor, `(type, serial)` is in the ledger afterwards.  `effect_readable_or_destroyed` is the negative form of
+  conservation over one effect (`Insert` / `Remove` / `Despawn` / `Spawn`): every value `World::get` reads before, of a
+  type with destructor, is read at the same place afterwards OR is in the ledger — nothing leaves storage unlogged.
+  With `C12History` ("at most once, anywhere"): destroyed exactly once or still stored, never both, never neither, for
+  one effect.
+
+## What is still not proved: (iii) the history-level statement
+
+`∀ s, 0 < s → s < nextCSerial → (s was handed out for a type with destructor) → s ∈ stored ∨ s ∈ totalLedger` at every
+quiescent point of every history.  What (i) and (ii) cover are the places where a value LEAVES STORAGE (all four
+effects, and `drop`); `Archetypes::remove_component` (`archsRemoveComponent`: the cells of the removed archetypes are
+dropped with `info.ty` resp. `compTy c`) is not covered.  What is missing for (iii) beyond that is the glue that carries
+"tracked" from the creation of a value to its storage: (a) the payload of a QUEUED `Insert` is handed to `effectPhase`
+with `info.kind = .insert c`, `compTy c = k`, or to `dropEvent` with `info.needsDrop = compNeedsDrop k` — a typing of the
+registry entry at the queued item's index that `WInv` / `TevTyped` / `EvLedger.TW` do not contain for `Insert` entries;
+(b) the new value IS stored by the effect (`C12History.insert_effect_stored_not_destroyed`, proved); (c) the handler
+phase, `flushWith` (incl. unwinding: `dropQueued` consults the same registry entry) and the registration functions
+keep "tracked" (they do not touch storage: `bump` changes values, not serials).  (a) is an auxiliary registry invariant
+in the style of `TevTyped`; (c) is a `Keeps` table over the start-state-parametrised predicate
+`fun w => ∀ s, tracked w0 s → tracked w s ∨ s ∈ dropSers w.cdrops`, as for `CL`.
 -/
 namespace Evenio
 namespace C12NoLeak
@@ -225,6 +248,55 @@ theorem despawn_effect_all_destroyed {w w' : World} (hw : WInv w) {it : QItem} {
   rw [hcd, ← hty]
   exact logged_of_dropLog (mem_zip_of_getElem? hj hdj) (hty ▸ hn) _
 
+/-- a live entity other than the target, or a component other than the one concerned, reads as before; so:
+
+    **(ii) one effect never loses a readable value with a destructor.**  For the effect of an `Insert` / `Remove` /
+    `Despawn` delivered to the live entity `e`, and for `Spawn`, from a world satisfying `WInv`: every value `World::get`
+    reads before the effect, of a component type with destructor, is read at the same place afterwards or is in the
+    ledger.  (The negative form of conservation, over one step; `w.compTy` is the type before the step — the effects do
+    not touch the component registry up to `member_of`.) -/
+theorem effect_readable_or_destroyed {w w' : World} (hw : WInv w) {it : QItem} {info : EvInfo} {loc : Loc} {e : Key}
+    (hloc : w.entities.get e = some loc) (hk : info.kind ≠ .normal)
+    (h : (effectPhase it info loc).run.run w = (.ok (), w')) {e' : Key} {c' : Nat} {y : Cell}
+    (hy : w.getCell e' c' = some y) (hn : compNeedsDrop (w.compTy c') = true) :
+    w'.getCell e' c' = some y ∨ (w.compTy c', y.ser) ∈ w'.cdrops := by
+  have hlive : ∃ l, w.entities.get e' = some l := by
+    rw [world_getCell_eq hw.entsWF] at hy
+    cases he : w.entities.get e' with
+    | none => rw [he] at hy; cases hy
+    | some l => exact ⟨l, rfl⟩
+  obtain ⟨l', hl'⟩ := hlive
+  cases hkind : info.kind with
+  | normal => exact absurd hkind hk
+  | insert c =>
+    obtain ⟨-, g2, -, g4⟩ := ReachStore.insert_effect_winv hw hkind hloc h
+    by_cases he : e' = e
+    · subst he
+      by_cases hc : c' = c
+      · subst hc
+        exact .inr (insert_overwrite_old_destroyed hw hkind hloc h hy hn)
+      · exact .inl ((g2 c' hc).trans hy)
+    · exact .inl (((g4 e' he).1 c').trans hy)
+  | remove c =>
+    obtain ⟨-, g2, -, g4⟩ := ReachStore.remove_effect_winv hw hkind hloc h
+    by_cases he : e' = e
+    · subst he
+      by_cases hc : c' = c
+      · subst hc
+        exact .inr (remove_effect_old_destroyed hw hkind hloc h hy hn)
+      · exact .inl ((g2 c' hc).trans hy)
+    · exact .inl (((g4 e' he).1 c').trans hy)
+  | spawn =>
+    rw [effectPhase_spawn hkind] at h
+    obtain ⟨-, hkeep⟩ := world_spawnAll hw.storeOk hw.hasEmpty h
+    exact .inl (((hkeep e' l' hl').2.1 c').trans hy)
+  | despawn =>
+    obtain ⟨-, -, -, g4⟩ := ReachStore.despawn_effect_reads_winv hw hkind hloc h
+    by_cases he : e' = e
+    · subst he
+      exact .inr (despawn_effect_all_destroyed hw hkind hloc h hy hn)
+    · exact .inl (((g4 e' l' he hl').1 c').trans hy)
+
 /-- the three effects from a world the driver reaches (`Reach`, `Small`): nothing but reachability is assumed -/
 theorem reachable_effects_no_leak {w w' : World} (hr : Reach w) (hs : Small w) {it : QItem} {info : EvInfo} {loc : Loc}
     {e : Key} (hloc : w.entities.get e = some loc) (h : (effectPhase it info loc).run.run w = (.ok (), w')) {c : Nat}
@@ -238,3 +310,13 @@ theorem reachable_effects_no_leak {w w' : World} (hr : Reach w) (hs : Small w) {
 
 end C12NoLeak
 end Evenio
+
+#print axioms Evenio.C12NoLeak.drop_destroys_all_stored
+#print axioms Evenio.C12NoLeak.drop_destroys_what_is_readable
+#print axioms Evenio.C12NoLeak.drop_exactly_once
+#print axioms Evenio.C12NoLeak.history_then_drop
+#print axioms Evenio.C12NoLeak.insert_overwrite_old_destroyed
+#print axioms Evenio.C12NoLeak.remove_effect_old_destroyed
+#print axioms Evenio.C12NoLeak.despawn_effect_all_destroyed
+#print axioms Evenio.C12NoLeak.effect_readable_or_destroyed
+#print axioms Evenio.C12NoLeak.reachable_effects_no_leak
